@@ -576,9 +576,56 @@ def r02_3(ctx, counts) -> RuleResult:
     return res
 
 
+# --------------------------------------------------------------------------- R02.4
+LAZY_PARTS = ('_attributes', '_namespace_nodes', 'attributes', 'namespace_nodes')
+
+
+def r02_4(ctx, counts) -> RuleResult:
+    model: Model = ctx.model
+    res = RuleResult(
+        'R02.4', 'TRAVERSAL-EMITS-LAZY-PARTS',
+        'In every traversal generator of xpath_nodes (iter, iter_lazy, iter_document, …) each '
+        '`yield from X._attributes / X._namespace_nodes / X.attributes / X.namespace_nodes` is '
+        'control-dependent only on type and hasattr tests: no dominating branch fact mentions '
+        'X.children (or any other property of the children). An element\'s attributes and '
+        'namespace nodes sit between it and its first child in document order whether or not '
+        'it has children; the sibling traversals must agree on that.')
+    mod = model.module('elementpath.xpath_nodes')
+    n_sites = 0
+    gens = 0
+    for f in sorted(mod.functions.values(), key=lambda q: q.key):
+        ys = [n for n in walk_local(f.node) if isinstance(n, ast.YieldFrom)
+              and isinstance(n.value, ast.Attribute) and n.value.attr in LAZY_PARTS]
+        if not ys:
+            continue
+        gens += 1
+        cfg = CFG(f.node)
+        facts = branch_facts(cfg)
+        for y in ys:
+            n_sites += 1
+            holder = [nd for nd in cfg.nodes if nd.ast is not None and nd.kind == 'stmt'
+                      and any(x is y for x in ast.walk(nd.ast))]
+            if not holder:
+                raise AnalysisError(f'{f.key}: yield not located in the CFG')
+            bad = sorted(fa for fa in facts[holder[0].id] if 'children' in fa or 'len(' in fa)
+            res.instances.append(f'{f.key}: {stmt_text(y)} under {sorted(facts[holder[0].id])}')
+            if bad:
+                res.fail(finding('R02.4', f, y, f'{stmt_text(y)} under {bad[0]}',
+                                 f'`{stmt_text(y)}` is only reached when `{bad[0][1:]}` is '
+                                 f'{"true" if bad[0][0] == "+" else "false"}: elements without '
+                                 f'children lose their attribute/namespace nodes in this '
+                                 f'traversal, so it disagrees with its siblings on document order'))
+            else:
+                res.ok()
+    counts['lazy_part_yields'] = n_sites
+    if n_sites < 6 or gens < 3:
+        raise AnalysisError(f'only {n_sites} attribute/namespace yields in {gens} generators')
+    return res
+
+
 def run(ctx) -> dict:
     counts: dict[str, int] = {}
-    results = [r02_1(ctx, counts), r02_2(ctx, counts), r02_3(ctx, counts)]
+    results = [r02_1(ctx, counts), r02_2(ctx, counts), r02_3(ctx, counts), r02_4(ctx, counts)]
     return {
         'results': results, 'counts': counts,
         'explanation':
@@ -587,7 +634,8 @@ def run(ctx) -> dict:
             'readers assign are normalised to linear forms over N, X, A and must agree '
             '(gap = N + X + A + 1); on the CFG of each builder every two node constructions are '
             'separated by an increment >= 1; set operators sort by node position before '
-            'yielding.',
+            'yielding; the traversal generators emit attribute/namespace nodes independently of '
+            'the children of an element.',
         'not_decided':
             'One node per XML construct, parent/children consistency, string values, and the '
             'is/<</>> operators. Observation (not claimed): with a schema, defaulted attributes '
